@@ -292,7 +292,7 @@ main(int argc, char **argv)
 			continue;
 		}
 		/* data-phase start states, built by scripted prefixes */
-		for (phase = 0; phase < 12; phase ++) {
+		for (phase = 0; phase < 17; phase ++) {
 			world_snap base;
 			world_take(&base);
 			switch (phase) {
@@ -314,11 +314,22 @@ main(int argc, char **argv)
 				tp_act_flush(&W.s, 1); tp_act_recvrec(&W.s, &W.c2s, 5); break;   /* forced empty record pending at the server, header of a client record already accepted */
 			case 11: tp_act_write(&W.s, 9); tp_act_flush(&W.s, 0); tp_act_sendrec(&W.s, &W.s2c, 100000);
 				tp_act_flush(&W.c, 1); tp_act_recvrec(&W.c, &W.s2c, 5); break;   /* the same, roles swapped */
+			/* the peer's close_notify arrives while own application data is still buffered / in flight */
+			case 12: tp_act_write(&W.s, 10); tp_act_close(&W.c); tp_act_sendrec(&W.c, &W.c2s, 100000);
+				tp_act_recvrec(&W.s, &W.c2s, 100000); tp_act_recvrec(&W.s, &W.c2s, 100000); break;
+			case 13: tp_act_write(&W.c, 10); tp_act_close(&W.s); tp_act_sendrec(&W.s, &W.s2c, 100000);
+				tp_act_recvrec(&W.c, &W.s2c, 100000); tp_act_recvrec(&W.c, &W.s2c, 100000); break;
+			case 14: tp_act_write(&W.s, 10); tp_act_flush(&W.s, 0); tp_act_sendrec(&W.s, &W.s2c, 3);
+				tp_act_close(&W.c); tp_act_sendrec(&W.c, &W.c2s, 100000);
+				tp_act_recvrec(&W.s, &W.c2s, 100000); tp_act_recvrec(&W.s, &W.c2s, 100000); break;
+			/* close / renegotiation requested while an application record is partly sent */
+			case 15: tp_act_write(&W.c, 10); tp_act_flush(&W.c, 0); tp_act_sendrec(&W.c, &W.c2s, 3); tp_act_close(&W.c); break;
+			case 16: tp_act_write(&W.s, 10); tp_act_flush(&W.s, 0); tp_act_sendrec(&W.s, &W.s2c, 3); tp_act_reneg(&W.s); break;
 			case 9: tp_act_reneg(&W.s); tp_act_sendrec(&W.s, &W.s2c, 100000);
 				tp_act_recvrec(&W.c, &W.s2c, 100000); tp_act_recvrec(&W.c, &W.s2c, 100000); break;   /* HelloRequest received */
 			}
 			if ((startno ++ % nworkers) == worker) {
-				start_has_reneg = phase == 8 || phase == 9;
+				start_has_reneg = phase == 8 || phase == 9 || phase == 16;
 				explore_from_here(phase >= 10 ? depth + 1 : depth, "data-phase", phase);
 				start_has_reneg = 0;
 			}
